@@ -92,7 +92,13 @@ def principal(n):
         return n.iter
     if isinstance(n, LoopIR.Call):
         return n.f
+    if isinstance(n, LoopIR.WriteConfig):
+        return ("config-field", id(n.config), n.field)
     return None
+
+
+def same_principal(a, b):
+    return a is not None and (a is b or (isinstance(a, tuple) and a == b))
 
 
 def _shares_header(f, n):
@@ -179,17 +185,22 @@ def check_stmt_forward(src: PRec, dst: PRec, site, desc, hist, stats):
         DF = set()
         for f in Fs:
             DF |= set(node_ids(f))
-        if not (DF & carried) and not any(principal(f) is not None and principal(f) is principal(N) for f in Fs):
+        composite = desc["op"].startswith(("std.", "halide."))
+        if not composite and not (DF & carried) and not any(same_principal(principal(f), principal(N)) for f in Fs):
             # (sub-expressions may legitimately move into a new statement, e.g. bind_expr /
             # stage_mem; then the statement that still has the same principal Sym -- written
-            # buffer, iterator, allocated name, callee -- is the same statement)
+            # buffer, iterator, allocated name, callee, config field -- is the same statement.
+            # Compositions such as cse both bind the sub-expressions and stage the written
+            # buffer, so neither kind of evidence survives: not judged by this rule.)
             raise Violation(
                 blame(desc, "stmt", "different-statement(rebuilt)"),
                 f"{where}: {len(carried)} sub-nodes of the original statement are carried over into the target, none of them lies inside the forwarded statement {str(Fs[0]).splitlines()[0][:80]!r}\nsource proc:\n{safe_str(src.p)}\ntarget proc:\n{safe_str(dst.p)}",
             )
     # binder evidence
     sym = N.iter if isinstance(N, LoopIR.For) else (N.name if isinstance(N, (LoopIR.Alloc, LoopIR.WindowStmt)) else None)
-    if sym is not None and len(dst.binders.get(sym, [])) == 1 and len(Fs) == 1:
+    # (only when the Sym had a unique binder in the source as well: fission / lift_scope
+    #  legitimately leave two sibling loops binding one iterator Sym)
+    if sym is not None and len(src.binders.get(sym, [])) == 1 and len(dst.binders.get(sym, [])) == 1 and len(Fs) == 1:
         b = dst.binders[sym][0].node
         f = Fs[0]
         fsym = f.iter if isinstance(f, LoopIR.For) else (f.name if isinstance(f, (LoopIR.Alloc, LoopIR.WindowStmt)) else None)
